@@ -1,4 +1,5 @@
 (** C08 - REQ/REP lock-step: one outstanding request, reply goes to its requester.  Property theorems only. *)
+From ZV Require Proofs.CodecEnc Proofs.PushDistribution Proofs.ReqRotation.
 From ZV Require Import Base.Bytes Base.Res Model.Codec Model.World Proofs.SocketProofs.
 
 (** decision rules: an out-of-turn call fails, hands the message back, writes nothing, changes nothing *)
@@ -44,3 +45,17 @@ Theorem C08_write_touches_one_connection : forall w k m j, j <> k ->
   get_conn j (w_conns (write_msg w k m)) = get_conn j (w_conns w).
 Proof. exact write_msg_others_unchanged. Qed.
 Print Assumptions C08_write_touches_one_connection.
+
+(** closed form over whole histories (C08 + C10 for REQ, composed with the codec): a REQ socket with n connected
+    servers that all answer sends request number i - one empty delimiter and the payload - to server (i mod n) in
+    joining order, returns exactly that server's reply payload, and only then accepts the next request *)
+Theorem C08_req_rotation : forall cs prs,
+  NoDup cs -> cs <> [] ->
+  Forall (fun pr => snd pr <> [] /\ CodecEnc.wf_msg ([] :: snd pr)) prs ->
+  World.run (world0 REQ) (map (fun c => OAttach c None) cs ++ ReqRotation.cycles cs prs 0 ++ map OWire cs) =
+  map (fun c => BAtt c None) cs ++
+  flat_map (fun pr => [BSendOk; BRecv None (snd pr)]) prs ++
+  map (fun ic => BWire (snd ic) (concat (map (fun p => encode_frames ([] :: p)) (PushDistribution.share (fst ic) (length cs) (map fst prs)))))
+      (combine (seq 0 (length cs)) cs).
+Proof. exact ReqRotation.req_rotation. Qed.
+Print Assumptions C08_req_rotation.
